@@ -283,7 +283,7 @@ def run_fuzz_unit(work, pid, uidx, unit, tier):
     return res
 
 
-def run_unit(work, pid, uidx, unit, tier, base_seed, known_fps, replay=None):
+def run_unit(work, pid, uidx, unit, tier, base_seed, known_fps, replay=None, repeat=1):
     if unit.get("kind") == "fuzz":
         if replay:
             return UnitResult()
@@ -322,6 +322,8 @@ def run_unit(work, pid, uidx, unit, tier, base_seed, known_fps, replay=None):
             env["VERIF_CURCASE"] = curf
         if replay:
             env["VERIF_REPLAY"] = replay
+            if repeat > 1:
+                env["VERIF_REPLAY_REPEAT"] = str(repeat)
         cmd = [binp, "-test.run", "^%s$" % unit["test"], "-test.timeout", "%ds" % (timeout + 30), "-test.count", "1"]
         if unit.get("kind", "rapid") == "rapid":
             cmd += ["-rapid.checks", str(checks), "-rapid.seed", str(seed), "-rapid.nofailfile", "-test.v"]
@@ -494,7 +496,7 @@ def check_property(pid, spec, tier, replay=None, keep=False):
                 continue
             if tier not in unit:
                 continue
-            res = run_unit(work, pid, uidx, unit, tier, base_seed, known_fps, replay=replay)
+            res = run_unit(work, pid, uidx, unit, tier, base_seed, known_fps, replay=replay, repeat=unit.get("replay_repeat", 1) if replay else 1)
             all_stats += res.stats
             if res.undecided:
                 undecided.append(res.undecided)
@@ -512,7 +514,7 @@ def check_property(pid, spec, tier, replay=None, keep=False):
                     if tries > 1 and os.path.exists(failf + ".first"):
                         candidates += [failf + ".first"] * tries
                     for attempt, cand in enumerate(candidates):
-                        r2 = run_unit(work + "", pid, 1000 + uidx + 100 * attempt, unit, tier, base_seed, known_fps, replay=cand)
+                        r2 = run_unit(work + "", pid, 1000 + uidx + 100 * attempt, unit, tier, base_seed, known_fps, replay=cand, repeat=unit.get("replay_repeat", 1))
                         if r2.violation:
                             break
                     if r2.violation:
